@@ -19,7 +19,7 @@ URL = ("tests/stub_HelperChildConfig.o tests/stub_HttpHeader.o tests/stub_HttpRe
        "tests/stub_libmem.o anyp/libanyp.la libsquid.la parser/libparser.la base/libbase.la ip/libip.la "
        "sbuf/libsbuf.la ../lib/libmiscencoding.la ../compat/libcompatsquid.la").split()
 
-HTTPREPLY = ("tests/stub_CachePeer.o ConfigParser.o tests/stub_ETag.o tests/stub_HelperChildConfig.o HttpBody.o "
+HTTPREPLY = ("SquidConfig.o tests/stub_CachePeer.o ConfigParser.o tests/stub_ETag.o tests/stub_HelperChildConfig.o HttpBody.o "
              "HttpControlMsg.o HttpHdrCc.o HttpHdrContRange.o HttpHdrRange.o HttpHdrSc.o HttpHdrScTarget.o "
              "HttpHeader.o HttpHeaderTools.o HttpReply.o tests/stub_HttpRequest.o tests/stub_Instance.o "
              "MasterXaction.o MemBuf.o Notes.o StatCounters.o tests/stub_StatHist.o StrList.o String.o "
